@@ -23,10 +23,10 @@
 EXTENDS Naturals, Sequences, FiniteSets, TLC, Json
 
 CONSTANTS
-    NScen,      \* the configurations explored are UNION {Scen(i) : i \in 1..NScen}
+    Scens,      \* the configurations explored are UNION {Scen(s) : s \in Scens}
     Scen(_),    \* (TLC computes initial states on one thread and enumerates a union of
                 \* big sets quadratically, so the initial states are only the scenario
-                \* numbers and a scenario's configurations are successors of its seed)
+                \* descriptions and a scenario's configurations are successors of its seed)
     ClockT,     \* the reading of a working clock
     Emit        \* TRUE: print one REPLAY line per finished configuration
 
@@ -163,7 +163,7 @@ Eval(f, ev) ==
 FLog(inv) == [i \in 1..Len(inv) |-> [t |-> "f", id |-> inv[i]]]
 
 Init ==
-    /\ cfg \in 1..NScen
+    /\ cfg \in Scens
     /\ pc = "pick"
     /\ amb = <<>>
     /\ ext = NoExtent
